@@ -27,13 +27,14 @@ _counter = [0]
 COMP_TYPES = ['verif_fixtures.Plain', 'verif_fixtures.Plain2',
               'verif_fixtures.Listener', 'verif_fixtures.LoadOnly',
               'verif_fixtures.Outer.Inner', 'verif_fixtures.sub.SubComp',
-              'verif_fixtures.make_comp']
+              'verif_fixtures.make_comp', 'verif_fixtures.legacy.Thing']
 PROC_TYPES = ['verif_fixtures.Proc1', 'verif_fixtures.ProcEarly',
               'verif_fixtures.ProcLate']
 OBJ_REFS = ['verif_fixtures.OBJ', 'verif_fixtures.Outer.Inner',
             'verif_fixtures.sub.SubComp', 'verif_fixtures.NUM',
             'verif_fixtures.func', 'verif_fixtures.Outer.VALUE',
-            'verif_fixtures.sub.SUB_OBJ', 'verif_fixtures.TEXT']
+            'verif_fixtures.sub.SUB_OBJ', 'verif_fixtures.TEXT',
+            'verif_fixtures.legacy.VALUE', 'verif_fixtures.legacy.NUM']
 PLAIN_STRINGS = ['hello', ' spaced ', '', 'a$b', 'x ${verif_fixtures.OBJ} y',
                  'see $res{a}', ' ${verif_fixtures.OBJ}', '$ {x}', '$res',
                  '${}', '$RES{a}', '$handle', '$res{}', '$', '{a}', '}{',
@@ -41,16 +42,20 @@ PLAIN_STRINGS = ['hello', ' spaced ', '', 'a$b', 'x ${verif_fixtures.OBJ} y',
 
 
 def resolve(name):
+    """The object a dotted name denotes: modules are imported as far as the
+    name goes (package.subpackage.module), the rest are attributes."""
     import importlib
     parts = name.split('.')
-    mod = importlib.import_module(parts[0])
+    mod, k = None, 0
+    for i in range(len(parts)):
+        try:
+            mod = importlib.import_module('.'.join(parts[:i + 1]))
+            k = i + 1
+        except ModuleNotFoundError:
+            break
     obj = mod
-    for p in parts[1:]:
-        if hasattr(obj, p):
-            obj = getattr(obj, p)
-        else:
-            obj = importlib.import_module(
-                obj.__name__ + '.' + p)
+    for p in parts[k:]:
+        obj = getattr(obj, p)
     return obj
 
 
@@ -70,6 +75,10 @@ class Interp:
         import verif_fixtures
         self.fx = verif_fixtures
         self.fx.LOG.clear()
+        # every run starts with the package imported and the sub-module
+        # 'legacy' not imported yet (its name is an attribute of the package)
+        sys.modules.pop('verif_fixtures.legacy', None)
+        verif_fixtures.legacy = verif_fixtures.LEGACY_SHADOW
         _counter[0] += 1
         self.dir = os.path.join(f'{SCRATCH}-{os.getpid()}',
                                 f'wf{_counter[0]}')
